@@ -17,7 +17,8 @@
                       to run when a file named L exists RELATIVE TO THE PROCESS CWD (onnx 1.22:
                       `if os.path.exists(location): raise FileExistsError`).
      * jax2onnx     : standard export (`pre` then `standard_core`) = [since 1d7bd45, `v_remove_before`: remove an existing sidecar FIRST], then
-                      the onnx writer with threshold, THEN remove the sidecar only when the export referenced no
+                      the onnx writer with threshold (since e203da0 jax2onnx marks the initializers itself and
+                      the writer's CWD check is never reached: `v_cwd_check = false`, variant `current`), THEN remove the sidecar only when the export referenced no
                       external data and the sidecar is EMPTY; `save_web` = self-contained write, THEN remove any
                       sidecar.  An export that raises has already performed the removal (`save` returns the
                       directory and a success flag).  The harness determines the variant that code + installed
@@ -878,9 +879,13 @@ Definition rle_load_after_save_repaired := G_load_after_save_repaired RleOps Rle
 Definition rle_history_independent := G_history_independent RleOps.
 
 (* ---- witnesses (threshold 2: a 3-byte parameter spills, a 1-byte parameter does not) *)
-(* installed onnx 1.22 (append writer, CWD-relative existence check) under jax2onnx before / since 1d7bd45 *)
+(* installed onnx 1.22 (append writer, CWD-relative existence check) under jax2onnx before 1d7bd45 / at 1d7bd45 *)
 Definition unrepaired : variant := {| v_writer := WAppend; v_cwd_check := true; v_remove_before := false |}.
 Definition repaired : variant := {| v_writer := WAppend; v_cwd_check := true; v_remove_before := true |}.
+(* since e203da0 jax2onnx marks the large initializers itself and calls plain onnx.save_model(model, dest): the
+   writer's CWD-relative existence check is never reached.  This is the variant the harness ties the current
+   code to. *)
+Definition current : variant := {| v_writer := WAppend; v_cwd_check := false; v_remove_before := true |}.
 Definition mk (g : N) (b : bytes) : Lmodel := Build_model ListOps g [("w"%string, b)].
 Definition stp (md : mode) (c : cwd) (m : Lmodel) : Lstep := Build_step ListOps md c m.
 Definition big1 := mk 1 [11; 12; 13].
@@ -893,7 +898,13 @@ Definition load_after_save_statement (v : variant) : Prop :=
   forall thr p (f0 : Lfs) h s,
     load ListOps (st_fs ListOps (run ListOps v thr p (init ListOps f0) (h ++ [s]))) p = Some (st_model ListOps s).
 
-(* STILL false of the repaired code, only because of the unrelated-CWD clash: the export raises FileExistsError *)
+(* TRUE of the current code, unconditionally: every history, every CWD, every prior directory *)
+Theorem load_after_save_current : load_after_save_statement current.
+Proof. intros thr p f0 h s. now apply load_after_save_no_cwd_check. Qed.
+Theorem current_never_raises : forall thr (f : Lfs) p s, snd (save ListOps current thr f p s) = true.
+Proof. intros. now apply (no_check_succeeds ListOps). Qed.
+
+(* false of the 1d7bd45 code, only because of the unrelated-CWD clash: the export raises FileExistsError *)
 Theorem load_after_save_refuted : ~ load_after_save_statement repaired.
 Proof.
   intro H. specialize (H 2 P [] [stp Standard CwdClean big1] (stp Standard CwdClash big2)).
@@ -912,7 +923,8 @@ Example dest_reexport_repaired :
   sidecar_size ListOps (st_fs ListOps st) P = 3.
 Proof. vm_compute. repeat split; reflexivity. Qed.
 
-(* "an export that raises leaves the directory as it was": true before the repair, FALSE since: the removal
+(* "an export that raises leaves the directory as it was": true before 1d7bd45, FALSE at 1d7bd45 (the current
+   code never raises: current_never_raises): the removal
    happens before the writer refuses, so the PREVIOUS export loses its sidecar and no longer loads *)
 Definition raise_atomic_statement (v : variant) : Prop :=
   forall thr (f : Lfs) p s, snd (save ListOps v thr f p s) = false -> fst (save ListOps v thr f p s) = f.
@@ -938,6 +950,8 @@ Definition sidecar_exact_statement (v : variant) : Prop :=
     sidecar_size ListOps (fst (save ListOps v thr f p s)) p
     = expected_sidecar ListOps (st_mode ListOps s) thr (st_model ListOps s).
 
+Theorem sidecar_exact_current : sidecar_exact_statement current.
+Proof. intros thr p f s Hs. apply sidecar_exact_partial; [exact Hs | now left]. Qed.
 Theorem sidecar_exact_repaired : sidecar_exact_statement repaired.
 Proof. intros thr p f s Hs. apply sidecar_exact_partial; [exact Hs | now left]. Qed.
 Theorem sidecar_exact_refuted_unrepaired : ~ sidecar_exact_statement unrepaired.
